@@ -14,10 +14,17 @@ generated driver on the generated `MemSource` equals the model's `encodeStream` 
                      image, same remaining log) — SUCCESS direction (the model's frame loop returns)
   C03G_stream_strict        C01_stream_strict for the GENERATED driver on the generated `MemSource`: the stream it returns is written
                      successfully and the strict RFC 9639 analyser accepts the bytes and returns the input, true STREAMINFO
+  C03G_driver_mem_value     the Rust-side value returned (STREAMINFO block flagged last, no further block, frames with `FrameOk`)
+  C03G_stream_ops_closed    `Stream::write` (Gen/Writer) of that stream with the utf8 parameter instantiated by the GENERATED
+                     `encode_to_utf8like` = the model's `(streamImage G).ops`; remaining parameters listed in its doc comment
+  C03G_stream_write_strict  C03G_stream_strict with the writer: the generated `Stream::write` of the returned stream succeeds with an op
+                     list whose ideal bits are the bytes the strict analyser accepts (utf8 closed; scratch-sink read-outs, CRC: parameters)
   C03G_driver_mem_stream    ... in the form "if `encodeStream` returns `(s, log')` the generated driver returns `Ok(G)` with image `s`"
 -/
 import FlacVerif.Theorems.C03Gen
 import FlacVerif.Theorems.C01Strict
+import FlacVerif.Theorems.C08Gen3
+import FlacVerif.Theorems.C12
 namespace FlacVerif
 namespace C03GenMem
 
@@ -597,7 +604,8 @@ theorem C03G_driver_mem_value (featPar : Bool) (par : Gen.Encoder → Gen.Source
     (hlog : C09Gen.LogFits log) (hlogok : ∀ e ∈ log, e.Ok) (hnb : (blocksOf bs chans).length < 2 ^ 31)
     (hmd : ∀ l, (md5f l).length = 16) :
     ∃ (gs : List Gen.Writer.Frame) (info : StreamInfo), gs.map C08Gen.frameOfGen = fs ∧
-      (∀ g ∈ gs, (C08Gen.frameOfGen g).count = some (Gen.Writer.Frame.count_bits g)) ∧
+      (∀ g ∈ gs, (C08Gen.frameOfGen g).count = some (Gen.Writer.Frame.count_bits g)) ∧ (∀ g ∈ gs, C08Gen.FrameOk g) ∧
+      info.total = total ∧
       ∀ fuel, (blocksOf bs chans).length < fuel →
         encode_with_fixed_block_size featPar memOps par md5f s1 s2 s3 fuel c
           (Gen.Source.MemSource.from_samples (Rfc.interleave chans) ch bps rate) bs log =
@@ -614,15 +622,119 @@ theorem C03G_driver_mem_value (featPar : Bool) (par : Gen.Encoder → Gen.Source
     have h0 : ch ≠ 0 := by omega
     simp [memOps, Gen.Source.MemSource.len_hint, Gen.Source.MemSource.len, Gen.Source.MemSource.channels_fn, Gen.Source.req,
       Gen.Source.bindO, h0, hxl, Nat.mul_div_cancel _ (by omega : 0 < ch)]
-  obtain ⟨gs, h1, _, h3, h4⟩ := C03G_driver_contract memOps featPar par md5f s1 s2 s3 c
+  obtain ⟨gs, h1, _, h3, hok, h4⟩ := C03G_driver_contract memOps featPar par md5f s1 s2 s3 c
     (Gen.Source.MemSource.from_samples (Rfc.interleave chans) ch bps rate) _ bs log logf i0 m0 fbcf (some total)
     (blocksOf bs chans) fs hmt hnew hfb hst hb hmax hmo hd henc hlog hlogok hnb hlh hmd
-  exact ⟨gs, _, h1, h3, h4⟩
+  exact ⟨gs, _, h1, h3, hok, rfl, h4⟩
 
 /-- a stream of that form is the Rust-side value `C08Gen.streamToGen` assigns to its own model image -/
 theorem streamToGen_image (info : StreamInfo) (gs : List Gen.Writer.Frame) :
     C08Gen.streamToGen (streamImage ⟨⟨true, .StreamInfo info⟩, [], gs⟩) gs = ⟨⟨true, .StreamInfo info⟩, [], gs⟩ := by
   simp [C08Gen.streamToGen, streamImage, Gen.Verify.Stream.stream_info]
+
+/-- **`Stream::write` of the stream the generated driver returns, utf8 parameter closed**: for the stream `G` the generated
+`encode_with_fixed_block_size` returns on the generated `MemSource` (success direction, hypotheses of `C03G_driver_mem_value`),
+the generated `Stream::write` (Gen/Writer.lean) — with its `encode_to_utf8like` parameter (and the `_exact` companion)
+instantiated by the GENERATED function of Gen/Utf8.lean (`C08Gen3.utf8Param dbg`, `C08Gen3.utf8Exact dbg`; `C08G3_param`), in
+either profile `dbg` — issues exactly the sink operations of the hand model's `(streamImage G).ops` (`C08G_stream_ops`); by C08
+(`ops` = `bits`) their ideal bit string is `(streamImage G).bits`, the bytes `Rfc.analyzeRec` accepts in `C03G_stream_strict`.
+Writer-side parameters that REMAIN (as in C08Gen):
+  * the scratch-sink read-outs `scratchBytes` (= `ByteSink::as_slice`), `idealLen` (= `MemSink::len`), `wordExport`
+    (= `MemSink<u64>::write_to_byte_slice`) and the stale content `stale` of the `reuse!` buffer: functions of the operations a cleared
+    scratch sink received; the generated `MemSink` methods are tied to the sink model by C11G_* / C12G_* (C11Gen.lean, C12Gen.lean),
+    the read-outs themselves are not instantiated here;
+  * the CRC functions `crc p8` / `crc p16`: the `crc` crate is external; its catalog parameters for `CRC_8_FLAC` / `CRC_16_FLAC` are
+    generated (Gen/Tables.lean, C02Gen.lean). -/
+theorem C03G_stream_ops_closed (dbg featPar : Bool) (par : Gen.Encoder → Gen.Source.MemSource → Nat → M (Option Gen.Writer.Stream))
+    (md5f : List Nat → List Nat) (s1 : Nat → List (List Int)) (s2 : Nat → List Int) (s3 : Nat → Gen.Coding.FrameBuf)
+    (c : Gen.Encoder) (chans : List (List Int)) (ch bps rate bs total : Nat) (log logf : List OEvent) (i0 : StreamInfo)
+    (m0 : FlacVerif.FrameBuf) (fs : List Frame) (p8 p16 : CrcParams) (stale : List Nat)
+    (hmt : c.multithread = false)
+    (hnew : FlacVerif.StreamInfo.new rate ch bps = some i0) (hfb : FlacVerif.FrameBuf.withSize ch bs = some m0)
+    (hst : ∀ n, C09Gen.StereoBuf (s3 n)) (hb : 1 ≤ bps ∧ bps ≤ 24)
+    (hmax : c.subframe_coding.prc.max_parameter ≤ 14) (hmo : c.subframe_coding.fixed.max_order + 1 < 2 ^ 64)
+    (hcl : chans.length = ch) (hlen : ∀ x ∈ chans, x.length = total)
+    (hxr : ∀ x ∈ chans, ∀ v ∈ x, SubFrame.inRange bps v = true) (htot : total < 2 ^ 40)
+    (henc : encodeFrames (Total.subCfgOf c.subframe_coding) (Total.stereoCfgOf c.stereo_coding) bps rate (blocksOf bs chans) 0 log =
+      some (fs, logf))
+    (hlog : C09Gen.LogFits log) (hlogok : ∀ e ∈ log, e.Ok) (hnb : (blocksOf bs chans).length < 2 ^ 31)
+    (hmd : ∀ l, (md5f l).length = 16) :
+    ∀ fuel, (blocksOf bs chans).length < fuel →
+      ∃ G, encode_with_fixed_block_size featPar memOps par md5f s1 s2 s3 fuel c
+          (Gen.Source.MemSource.from_samples (Rfc.interleave chans) ch bps rate) bs log = some (some G, logf) ∧
+        (streamImage G).frames = fs ∧
+        Gen.Writer.Stream.write stale (C08Gen3.utf8Param dbg) (C08Gen3.utf8Exact dbg) C08Gen.scratchBytes (crc p8) C08Gen.idealLen
+          C08Gen.wordExport (crc p16) G = (streamImage G).ops p8 p16 := by
+  obtain ⟨gs, info, hmap, _, hok, hinfo, hrun⟩ := C03G_driver_mem_value featPar par md5f s1 s2 s3 c chans ch bps rate bs total log logf
+    i0 m0 fs hmt hnew hfb hst hb hmax hmo hcl hlen hxr htot henc hlog hlogok hnb hmd
+  intro fuel hf
+  refine ⟨_, hrun fuel hf, hmap, ?_⟩
+  have h40 : (2 : Nat) ^ 40 = 1099511627776 := by decide
+  have h := C08Gen.C08G_stream_ops p8 p16 (streamImage ⟨⟨true, .StreamInfo info⟩, [], gs⟩) gs stale (fun _ => true) rfl hok
+    (by show info.total < 2 ^ 64; omega) (by intro m hm; simp [streamImage] at hm)
+  rw [streamToGen_image] at h
+  rw [(C08Gen3.C08G3_param dbg).1, (C08Gen3.C08G3_param dbg).2]
+  exact h
+
+/-- **end to end, writer included (utf8 closed)**: under the hypotheses of `C03G_stream_strict`, the generated driver on the generated
+`MemSource` returns `Ok(G)`; the generated `Stream::write` of `G` (utf8 parameter = the GENERATED `encode_to_utf8like`; scratch-sink
+read-outs and CRC functions as in `C03G_stream_ops_closed`, with the RFC CRC parameters) succeeds with an operation list whose
+ideal bit string `sb` (C12_stream_ops) is accepted by the strict RFC 9639 analyser, which returns the input audio and the true
+STREAMINFO. -/
+theorem C03G_stream_write_strict (dbg featPar : Bool)
+    (par : Gen.Encoder → Gen.Source.MemSource → Nat → M (Option Gen.Writer.Stream))
+    (md5f : List Nat → List Nat) (s1 : Nat → List (List Int)) (s2 : Nat → List Int) (s3 : Nat → Gen.Coding.FrameBuf)
+    (c : Gen.Encoder) (chans : List (List Int)) (bps rate bs total : Nat) (log logf : List OEvent) (i0 : StreamInfo)
+    (m0 : FlacVerif.FrameBuf) (s : Stream) (stale : List Nat)
+    (hmt : c.multithread = false)
+    (hnew : FlacVerif.StreamInfo.new rate chans.length bps = some i0) (hfb : FlacVerif.FrameBuf.withSize chans.length bs = some m0)
+    (hst : ∀ n, C09Gen.StereoBuf (s3 n)) (hb : 4 ≤ bps ∧ bps ≤ 24) (hrate : 1 ≤ rate ∧ rate < 2 ^ 20)
+    (hmax : c.subframe_coding.prc.max_parameter ≤ 14) (hmo : c.subframe_coding.fixed.max_order + 1 < 2 ^ 64)
+    (hch : 1 ≤ chans.length ∧ chans.length ≤ 8) (hlen : ∀ x ∈ chans, x.length = total)
+    (hxr : ∀ x ∈ chans, ∀ v ∈ x, SubFrame.inRange bps v = true) (htot : total < 2 ^ 36)
+    (hbs : 16 ≤ bs ∧ bs < 2 ^ 16) (hnb : (total + bs - 1) / bs < 2 ^ 31)
+    (hs : encodeStream md5f (Total.subCfgOf c.subframe_coding) (Total.stereoCfgOf c.stereo_coding) bs chans bps rate log = some (s, logf))
+    (hlog : C09Gen.LogFits log) (hlogok : ∀ e ∈ log, e.Ok)
+    (hmd : ∀ x, (md5f x).length = 16 ∧ ∀ b ∈ md5f x, b < 256) :
+    ∀ fuel, (total + bs - 1) / bs < fuel →
+      ∃ G ops sb rep, encode_with_fixed_block_size featPar memOps par md5f s1 s2 s3 fuel c
+          (Gen.Source.MemSource.from_samples (Rfc.interleave chans) chans.length bps rate) bs log = some (some G, logf) ∧
+        Gen.Writer.Stream.write stale (C08Gen3.utf8Param dbg) (C08Gen3.utf8Exact dbg) C08Gen.scratchBytes (crc rfcCrc8)
+          C08Gen.idealLen C08Gen.wordExport (crc rfcCrc16) G = some ops ∧
+        idealRun 0 ops = sb ∧ Rfc.analyzeRec md5f (packBytes sb) = .ok rep ∧
+        rep.audio = chans ∧ rep.info.rate = rate ∧ rep.info.channels = chans.length ∧ rep.info.bps = bps ∧
+        rep.info.total = total ∧ rep.info.md5 = md5f (md5Input bps (Rfc.interleave chans)) ∧
+        rep.info.minBlock = bs ∧ rep.info.maxBlock = bs ∧ rep.metadataBlocks = 0 ∧
+        rep.frames.length = (total + bs - 1) / bs := by
+  intro fuel hf
+  have hbl := Strict.blocksOf_length bs chans total hch.1 hlen
+  have h36 : (2 : Nat) ^ 36 = 68719476736 := by decide
+  have h40 : (2 : Nat) ^ 40 = 1099511627776 := by decide
+  obtain ⟨G, sb, rep, hg, hbits, hrest⟩ := C03G_stream_strict featPar par md5f s1 s2 s3 c chans bps rate bs total log logf i0 m0 s hmt
+    hnew hfb hst hb hrate hmax hmo hch hlen hxr htot hbs hnb hs hlog hlogok hmd fuel hf
+  cases henc : encodeFrames (Total.subCfgOf c.subframe_coding) (Total.stereoCfgOf c.stereo_coding) bps rate (blocksOf bs chans) 0 log with
+  | none => unfold encodeStream at hs; simp [henc] at hs
+  | some r =>
+    obtain ⟨fs, l1⟩ := r
+    have hl1 : l1 = logf := by
+      unfold encodeStream at hs
+      simp only [henc, Option.bind_eq_bind, Option.bind_some] at hs
+      cases hc : fs.mapM Frame.count with
+      | none => simp [hc] at hs
+      | some cs => simp [hc] at hs; exact hs.2
+    subst hl1
+    obtain ⟨G', hg', _, hw⟩ := C03G_stream_ops_closed dbg featPar par md5f s1 s2 s3 c chans chans.length bps rate bs total log l1 i0 m0 fs
+      rfcCrc8 rfcCrc16 stale hmt hnew hfb hst ⟨by omega, hb.2⟩ hmax hmo rfl hlen hxr (by omega) henc hlog hlogok
+      (by rw [hbl]; exact hnb) (fun l => (hmd l).1) fuel (by rw [hbl]; exact hf)
+    rw [hg] at hg'
+    simp only [Option.some.injEq, Prod.mk.injEq, and_true] at hg'
+    subst hg'
+    obtain ⟨ops, hops⟩ := OpsL.stream_ops_of_bits rfcCrc8 rfcCrc16 (streamImage G) sb hbits
+    obtain ⟨b', hb', hideal⟩ := C12_stream_ops rfcCrc8 rfcCrc16 (streamImage G) ops hops
+    rw [hbits] at hb'
+    simp only [Option.some.injEq] at hb'
+    subst hb'
+    exact ⟨G, ops, _, rep, hg, by rw [hw, hops], hideal, hrest⟩
 
 end C03GenMem
 end FlacVerif
